@@ -105,61 +105,6 @@ def main():
     finally:
         sh(f"git -C /repo worktree remove --force {src}")
         shutil.rmtree(src, ignore_errors=True)
-    results = run_checks(patch, [prop] + extra)
-    meta["checks_with_change"] = results
-    meta["caught_by"] = [c for c, r in results.items() if r["exit"] == 1 and r["violations"] > 0]
-    meta["rechecked_at"] = time.strftime("%Y-%m-%d %H:%M:%S")
-    json.dump(meta, open(os.path.join(dst, "meta.json"), "w"), indent=1)
-    print(name, "caught_by", meta["caught_by"])
-    for c, r in results.items():
-        print(" ", c, r["exit"], r["first"][:120], r["summary"][:1])
-
-
-def main():
-    if sys.argv[1] == "recheck":
-        return recheck(sys.argv[2], sys.argv[3:])
-    _, cmd, name, prop, demo_dir, demo_cmd = sys.argv[:6]
-    extra = sys.argv[6:]
-    assert cmd == "confirm"
-    dst = os.path.join(VERIF, "seeded", name)
-    os.makedirs(dst, exist_ok=True)
-    for f in os.listdir(demo_dir):
-        p = os.path.join(demo_dir, f)
-        if os.path.isfile(p) and os.path.getsize(p) < 2_000_000:
-            shutil.copy(p, os.path.join(dst, f))
-    patch = os.path.join(dst, "patch.diff")
-    assert os.path.exists(patch), "no patch.diff"
-    meta = {"name": name, "property": prop, "demo_cmd": demo_cmd, "confirmed_at": time.strftime("%Y-%m-%d %H:%M:%S"),
-            "repo_head": sh("git -C /repo log --format=%h -1")[1].strip()}
-    src = f"/tmp/confirm/{name}"
-    shutil.rmtree(src, ignore_errors=True)
-    sh(f"git -C /repo worktree prune")
-    rc, out = sh(f"git -C /repo worktree add -q --detach {src} HEAD")
-    assert rc == 0, out
-    try:
-        bdir = src + "/_b"
-        # demonstrations that locate the tree relative to themselves are run from <worktree>/demo
-        shutil.copytree(dst, src + "/demo", dirs_exist_ok=True)
-        demo = demo_cmd.replace("{SRCDEMO}", src + "/demo")
-        demo = demo.replace("{BIN}", bdir + "/bin").replace("{SRC}", src).replace("{DEMO}", dst).replace("{BUILD}", bdir)
-        rc, out = build(src, bdir)
-        assert rc == 0, "unpatched build failed " + out
-        rc0, out0 = sh(demo, cwd=dst, timeout=1200)
-        meta["demo_without_change"] = {"exit": rc0, "tail": out0[-600:]}
-        rc, out = sh(f"git -C {src} apply --exclude='demo/*' {patch}")
-        assert rc == 0, "patch does not apply: " + out
-        rc, out = build(src, bdir)
-        meta["patched_build_ok"] = rc == 0
-        assert rc == 0, "patched build failed " + out
-        rc, out = sh(f"ctest --test-dir {bdir} -j8 --timeout 900 2>&1 | tail -4")
-        meta["ctest_with_change"] = out.strip().split("\n")[0] if out.strip() else ""
-        meta["ctest_pass"] = "100% tests passed" in out
-        rc1, out1 = sh(demo, cwd=dst, timeout=1200)
-        meta["demo_with_change"] = {"exit": rc1, "tail": out1[-900:]}
-        meta["confirmed"] = bool(rc0 == 0 and rc1 != 0 and meta["ctest_pass"])
-    finally:
-        sh(f"git -C /repo worktree remove --force {src}")
-        shutil.rmtree(src, ignore_errors=True)
     # run our checks against /repo with the patch applied
     assert sh("git -C /repo status --porcelain --untracked-files=no")[1].strip() == "", "/repo has uncommitted changes"
     rc, out = sh(f"git -C /repo apply {patch}")
